@@ -694,6 +694,10 @@ PROPS = {
             Job("c15", "std-debug", 60_000, 1_500_000, "same plans, debug harness"),
             Job("c15rand", "std-release", 40_000, 1_000_000,
                 "gen_biguint(n) for every n in 0..=200 and multiples of 32/64 +-1 into guarded memory from a scripted RNG"),
+            Job("c15c18", "std-release", 24_000, 600_000,
+                "the scripted-RNG histories of C18 (rejection retries, zero draws that are retried, adversarial candidates, sizes up to "
+                "70 kbit) executed under the plain and the guarded allocator"),
+            Job("c15c18", "std-debug", 8_000, 200_000, "same plans, debug harness"),
         ],
         assumptions=[
             "a page fault is the observation: an out-of-bounds access that stays inside the same page as the block's own bytes is invisible "
@@ -711,6 +715,14 @@ PROPS = {
                 "radices and sizes on both sides of the 64-digit threshold, sqrt/cbrt/nth_root, float conversions, formatting with flags) plus a "
                 "cross-section of every other family; the per-run transcript digest (every result digit, text, float bit pattern, None/panic "
                 "flag) must be identical in all six harness builds (std / no_std, with and without the optional features, debug / release); distinct = distinct (operation form, scalar type, radix)"),
+            Job("c09iter", ["std-debug", "std-release", "nostd-debug", "nostd-release", "stdbare-debug", "bare-release"], 60_000, 1_000_000,
+                "the two-ended iterator plans of C09 replayed in all six builds (transcripts must agree)"),
+            Job("c09bytes", ["std-debug", "std-release", "nostd-debug", "nostd-release", "stdbare-debug", "bare-release"], 60_000, 1_000_000,
+                "the byte/word transport plans of C09 replayed in all six builds"),
+            Job("c17", ["std-debug", "std-release", "nostd-debug", "nostd-release"], 60_000, 1_000_000,
+                "the serde plans of C17 replayed in the four builds that have the serde feature"),
+            Job("c18", ["std-debug", "std-release", "nostd-debug", "nostd-release"], 60_000, 1_000_000,
+                "the RNG plans of C18 replayed in the four builds that have the rand feature"),
         ],
         assumptions=[
             "cargo check of the library alone (guard off) decides 'compiles'; only target x86_64-unknown-linux-gnu is installed",
@@ -774,9 +786,8 @@ def feature_matrix(tier):
     for n in range(len(NO_STD_FEATURES) + 1):
         for sub in itertools.combinations(NO_STD_FEATURES, n):
             cfgs.append((list(sub), "dev"))
-    rel = [(["std"], "release"), ([], "release"), (["std"] + STD_FEATURES, "release"), (list(NO_STD_FEATURES), "release")]
-    if tier == "thorough":
-        rel = [(f, "release") for f, _ in cfgs]
+    # every subset in both profiles (cfg(debug_assertions)-dependent items can break one profile only)
+    rel = [(f, "release") for f, _ in cfgs]
     return cfgs + rel
 
 
